@@ -157,9 +157,32 @@ def Statement_xml_chardata_any_encoding : Prop :=
   ∀ (enc : Char → Bool) (s rest : Str), s.all xmlChar = true →
     xmlReadContent (xmlWriteTextEnc enc s ++ '<' :: rest) = some (s, '<' :: rest)
 
+/-- the JSON DOCUMENT (round h): `json.loads` as modelled — white space, `{ } [ ] : ,`, `true` / `false` / `null`, strings
+    through `scanstring` — undoes `json.dumps` (default separators, `ensure_ascii=False`) on every number-free tree; hence
+    rdflib's JSON writer and reader composed through the document TEXT give back every result: same variables in order,
+    same rows, every cell the same term or unbound, rows in which nothing is bound included, both booleans. -/
+def Statement_json_doc_roundtrip : Prop :=
+  (∀ j, numFree j = true → jsonParse (jsonWrite j) = .ok j) ∧
+  (∀ b, jsonDocRoundTrip (.ask b) = .ok (.ask b)) ∧
+  ∀ vars rows, Aligned vars rows → (∀ r ∈ rows, rowAll langOk r = true) →
+    jsonDocRoundTrip (.select vars rows) = .ok (.select vars rows)
+
 /-! ### Theorems -/
 
 theorem json_text_roundtrip : Statement_json_text_roundtrip := fun ks s rest => jsonScan_jsonSpell ks s rest
+
+theorem json_doc_roundtrip : Statement_json_doc_roundtrip :=
+  ⟨jsonParse_jsonWrite,
+   fun b => by rw [jsonDocRoundTrip_eq]; exact ofJson_toJson_ask b,
+   fun _ _ h hl => by rw [jsonDocRoundTrip_eq]; exact ofJson_toJson_select h hl⟩
+
+/-- the document of a one-row result, as `json.dumps` writes it -/
+example : jsonWrite (toJson (.select [['a']] [[some (.lang ['x', '"'] ['e', 'n'])]]))
+    = "{\"results\": {\"bindings\": [{\"a\": {\"type\": \"literal\", \"value\": \"x\\\"\", \"xml:lang\": \"en\"}}]}, \"head\": {\"vars\": [\"a\"]}}".toList := by
+  decide
+/-- no trailing comma, no number -/
+example : (jsonParse "[true,]".toList matches .error .value) = true := by decide
+example : (jsonParse "[1]".toList matches .error .unmodelled) = true := by decide
 
 theorem json_py_text_roundtrip : Statement_json_py_text_roundtrip := fun a s => jsonLoadsStr_pyDumpsStr a s
 
